@@ -72,6 +72,8 @@ def run (ctx):
         diffs = codecq.compare_spec(L, sv['fields'], side)
         if not diffs: ctx.ok('R-LAYOUT', c.qual, "%s layout == OpenFlow 1.0 struct %s" % (side, sname), "%d bytes fixed part" % sv['size'], c, 'D3')
         for off, what in diffs:
+          if 'has no static width' in what:      # the extractor could not size an item (a value chosen in a loop / through a temporary): not a verdict
+            ctx.undecided('R-LAYOUT', c.qual, "%s layout == OpenFlow 1.0 struct %s" % (side, sname), what, c, 'D3'); continue
           ctx.bad('R-LAYOUT', c.qual, "%s layout == OpenFlow 1.0 struct %s (%s)" % (side, sname, what[:60]), what + " - the bytes on the wire are not those of the specification", c, 'D3')
       cst, terms = layout.len_terms(repo, c)
       if c.name != 'ofp_header':
